@@ -252,6 +252,22 @@ def check_props_file(prop):
     return names, {'axioms': axioms, 'print_assumptions': n_pa}, None
 
 
+def coqchk(prop):
+    """Independent re-check of the statement file and all it depends on."""
+    mod = 'Desper.' + prop.PROPS_FILE[len('theories/'):-2].replace('/', '.')
+    try:
+        r = subprocess.run(['coqchk', '-silent', '-o', '-Q', 'theories', 'Desper', mod],
+                           cwd=COQ, capture_output=True, text=True, timeout=3000)
+    except subprocess.TimeoutExpired:
+        return dict(ok=False, error='coqchk timeout')
+    out = r.stdout + r.stderr
+    m = re.search(r'\* Axioms:(.*?)\n\s*\n\* Constants', out, re.S)
+    ax = [x.strip() for x in (m.group(1) if m else '').split('\n') if x.strip()]
+    if r.returncode != 0:
+        raise Internal('coqchk rejected %s: %s' % (mod, out[-1500:]))
+    return dict(ok=True, module=mod, axioms=ax)
+
+
 # --------------------------------------------------------- known findings
 def known_findings(pid):
     p = os.path.join(ROOT, 'known_findings.json')
@@ -527,6 +543,8 @@ def check(pid, tier, seed):
         )
         if pre_info:
             ev_cov['prebuild'] = pre_info
+        if tier == 'thorough':
+            ev_cov['coqchk'] = coqchk(prop)
         if stats:
             ev_cov['distribution'] = stats(cases, traces)
         extra_cov = getattr(prop, 'extra_checks', None)
